@@ -2,6 +2,9 @@
 //! tamper-payload on real built packages; after every operation the digests and all four real
 //! verifiers are observed. Tampering is done on the written bytes (a byte of the NAME string, a payload
 //! byte), each time to a value that never occurred before, so a tamper never undoes an earlier one.
+//! With `--sigtamper 1` the signature header is tampered with as well: a character of the header SHA-256 it
+//! records (to a letter that is no hex digit), and a character of the base64 OpenPGP signature (each time at
+//! another position inside the signature value at the end of the packet).
 use crate::cfggen as gen_;
 use crate::rawhdr;
 use crate::util::*;
@@ -55,6 +58,12 @@ pub fn run(args: &Args) {
     let wd = gen_::Workdir::new("walk");
     let nwalks = args.num("walks", 30);
     let maxlen = args.num("maxlen", 6);
+    let sigtamper = args.num("sigtamper", 0) != 0;
+    let ops: &[&str] = if sigtamper {
+        &["sign", "sign", "clear", "reparse", "tamper_header", "tamper_payload", "sign_fail", "tamper_rec_digest", "tamper_sig_blob", "tamper_sig_blob"]
+    } else {
+        &["sign", "sign", "clear", "reparse", "tamper_header", "tamper_payload", "sign_fail"]
+    };
     for w in 0..nwalks {
         let mut cfg = gen_::rand_cfg(&mut rng, 2, 300);
         cfg.name = "walkpkg".into(); // tampering increments its first letter
@@ -72,8 +81,9 @@ pub fn run(args: &Args) {
         };
         t.emit(json!({"event":"Start","ep_start":true,"walk":w,"obs":observe(&p)}));
         let (mut ht, mut pt) = (0u8, 0u8);
+        let (mut rt, mut st) = (0u8, 0usize);
         for step in 0..(1 + rng.below(maxlen)) {
-            let op = *rng.pick(&["sign", "sign", "clear", "reparse", "tamper_header", "tamper_payload", "sign_fail"]);
+            let op = *rng.pick(ops);
             let key = *rng.pick(&gen_::KEYS);
             let r = guarded(|| -> Result<Package, String> {
                 match op {
@@ -99,6 +109,27 @@ pub fn run(args: &Args) {
                         let pos = lay.hdr.store_at + e.offset as usize;
                         ht += 1;
                         b[pos] = b'w' + ht; // 'x', 'y', 'z', '{', ... never 'w' again
+                        Package::parse(&mut &b[..]).map_err(|e| e.to_string())
+                    }
+                    "tamper_rec_digest" => {
+                        let mut b = written(&p);
+                        let lay = rawhdr::layout(&b).ok_or("layout")?;
+                        let e = match lay.sig.find(273) { Some(e) if e.typ == rawhdr::T_STRING => e, _ => return Err("skip: no recorded header digest".into()) };
+                        let pos = lay.sig.store_at + e.offset as usize + (rt as usize % 8);
+                        rt += 1;
+                        b[pos] = b'f' + rt; // 'g', 'h', ... : never a hex digit, so never the true digest again
+                        Package::parse(&mut &b[..]).map_err(|e| e.to_string())
+                    }
+                    "tamper_sig_blob" => {
+                        let mut b = written(&p);
+                        let lay = rawhdr::layout(&b).ok_or("layout")?;
+                        let e = match lay.sig.find(278) { Some(e) if e.typ == rawhdr::T_STRARR && e.count >= 1 => e, _ => return Err("skip: no OpenPGP signature".into()) };
+                        let at = lay.sig.store_at + e.offset as usize;
+                        let len = b[at..].iter().position(|&c| c == 0).ok_or("unterminated")?;
+                        if len < 64 { return Err("skip: signature too short".into()); }
+                        st += 1;
+                        let pos = at + len - 8 - st; // inside the signature value; another character every time
+                        b[pos] = if b[pos] == b'A' { b'B' } else { b'A' };
                         Package::parse(&mut &b[..]).map_err(|e| e.to_string())
                     }
                     _ => {
